@@ -12,4 +12,10 @@ mod e_comp;
 #[cfg(kani)]
 mod capi;
 #[cfg(kani)]
+mod misc;
+#[cfg(kani)]
+mod unit;
+#[cfg(kani)]
+mod steps;
+#[cfg(kani)]
 mod gen;
